@@ -856,6 +856,51 @@ impl Prop for C07 {
         }
         out.into_iter().filter(|c| *c != case).map(|c| serde_json::to_value(c).unwrap()).collect()
     }
+    fn warm_up(&self) {
+        // the full registry behind `add_sdk_commands` is built lazily: on the worker's main thread, never in a run
+        let mut c = gen::sdk_commands();
+        gen::add_sdk_commands(&mut c, &EXTRA);
+        // the same for the lazily built tables inside the SDK's dependencies (a properties parser, regular
+        // expressions, ...): whichever run first reaches one would create hash maps that later runs do not, and
+        // every hash map created shifts the thread's key counter - the order in which `print_env` lists the
+        // environment then depends on what an earlier run in the same process happened to call. Every command is
+        // called here a few times with harmless arguments, each call a run of its own
+        let saved = enter_fixed_env(false);
+        let _ = std::fs::create_dir_all("run/c07");
+        let _ = std::fs::write("run/c07/w.properties", "a=1\nb.c=2\n");
+        let _ = std::fs::write("run/c07/w.json", "{\"a\":[1,{\"b\":null}]}");
+        let mut names: Vec<String> = c.commands.keys().cloned().collect();
+        names.sort();
+        let hook = std::panic::take_hook();
+        std::panic::set_hook(Box::new(|_| {}));
+        // once on this thread, then on eight threads of their own, one after the other. The regular expression
+        // crate keeps its matching caches (hash maps again) in a pool per expression: the first thread to use an
+        // expression owns one slot, every other thread takes a cache from one of eight shared stacks - chosen by a
+        // per-thread number that counts the threads that ever used an expression - and creates one only when that
+        // stack is empty. Without this a run's hash order would depend on how many earlier runs in the same process
+        // had used an expression (found by the determinism recheck: `print_env` listed the environment in another
+        // order after certain predecessors). Eight consecutive threads fill all eight stacks
+        const ALL: [&str; 11] = ["", "a", "a b", "run/c07/w.properties", "run/c07/w.json x", "1 2 3", "\"a=1\" b", "{\"a\":[1]}", "--collection {\"a\":[1]}", "1.2.3 1.2.4", "run/c07/*.json"];
+        let pass = |names: Vec<String>, variants: &[&str]| {
+        for n in names {
+            for args in variants {
+                let mut context = gen::sdk_context();
+                gen::add_sdk_commands(&mut context.commands, &EXTRA);
+                let text = format!("h = map\nmap_put ${{h}} k v\nx = {} {}\ny = {} ${{h}}\n", n, args, n);
+                let renv = Env::new(Some(Box::new(std::io::sink())), Some(Box::new(std::io::sink())), None);
+                let _ = std::panic::catch_unwind(std::panic::AssertUnwindSafe(|| runner::run_script(&text, context, Some(renv)).map(|_| ())));
+            }
+        }
+        };
+        pass(names.clone(), &ALL);
+        for _ in 0..8 {
+            let names = names.clone();
+            let _ = std::thread::Builder::new().stack_size(8 << 20).spawn(move || pass(names, &["a", "\"a=1\" b", "--prefix p \"a=1\""])).map(|h| h.join());
+        }
+        std::panic::set_hook(hook);
+        leave_fixed_env(saved);
+        let _ = std::fs::remove_dir_all("run");
+    }
     fn known_match(&self, matcher: &str, case: &Value, class: &str, _detail: &str) -> bool {
         let case: Case = match serde_json::from_value(case.clone()) {
             Ok(c) => c,
